@@ -140,6 +140,8 @@ func jobsFor(id, tier string) []*Job {
 		}
 		sx := mk("strctx", "zzverifw.H_C17_strctx", nil) // real lexer: no token feed
 		add(&sx)
+		nx := mk("namectx", "zzverifw.H_C17_namectx", nil) // real lexer
+		add(&nx)
 		for _, j := range []Job{mk("int", "zzverifw.H_C17_int", ints(0, 3)), mk("digits", "zzverifw.H_C17_digits", dp), mk("expint", "zzverifw.H_C17_expint", nil), mk("str", "zzverifw.H_C17_str", nil), mk("float", "zzverifw.H_C17_float", nil)} {
 			j.Overrides = lexOv
 			if len(j.Params) > 0 {
@@ -197,7 +199,7 @@ func jobsFor(id, tier string) []*Job {
 		add(split(mj)...)
 	case "C19":
 		var fp [][]int
-		for hh := 0; hh < 27; hh++ {
+		for hh := 0; hh < 28; hh++ {
 			if thorough {
 				fp = append(fp, []int{hh, -1}) // every later program
 			} else {
@@ -235,7 +237,7 @@ func jobsFor(id, tier string) []*Job {
 			cp = append(cp, []int{sh, 13, 0})
 		}
 		add(split(wmk("constructs", "zzverifw.H_C06_constructs", cp))...)
-		add(split(wmk("capture", "zzverifw.H_C06_capture", ints(0, 12)))...)
+		add(split(wmk("capture", "zzverifw.H_C06_capture", ints(0, 14)))...)
 	case "C03":
 		var bp [][]int
 		for np := 0; np <= 3; np++ {
@@ -244,7 +246,7 @@ func jobsFor(id, tier string) []*Job {
 			}
 		}
 		add(split(wmk("bind", "zzverifw.H_C03_bind", bp))...)
-		add(split(wmk("scope", "zzverifw.H_C03_scope", ints(0, 20)))...)
+		add(split(wmk("scope", "zzverifw.H_C03_scope", ints(0, 21)))...)
 	case "C04":
 		nmax := 2
 		if thorough {
@@ -359,6 +361,8 @@ func jobsFor(id, tier string) []*Job {
 		add(&ru)
 		ne := wmk("nested", "zzverifw.H_C13_nested", nil)
 		add(&ne)
+		pj := wmk("propstep", "zzverifw.H_C13_propstep", nil)
+		add(&pj)
 	case "C18":
 		var eqp [][]int
 		for a := 0; a < 14; a++ {
@@ -380,7 +384,7 @@ func jobsFor(id, tier string) []*Job {
 		add(split(wmk("ord", "zzverifw.H_C18_ord", ints(0, 5)))...)
 		add(split(wmk("trans", "zzverifw.H_C18_trans", ints(0, 5)))...)
 	case "C08":
-		o := wmk("order", "zzverifw.H_C08_order", ints(0, 48))
+		o := wmk("order", "zzverifw.H_C08_order", ints(0, 50))
 		o.MapOrder = 1
 		o.ReplayRepeat = 400
 		if thorough {
@@ -510,9 +514,10 @@ func boundsFor(id, tier string, jobs []*Job) map[string]interface{} {
 		b["singletons"] = "every name of the constants environment x 15 generic probes (printing, lookup, comparison, bear, which, try)"
 	case "C17":
 		b["int_literals"] = "decimal / hex / octal / binary: 7..16 spellings each (underscores, leading zeros, prefix case, values at and beyond 2^63-1 and 2^64-1); plus EVERY literal of 1..2 digits over the full digit alphabet of each base (hex in both letter cases), optionally followed by 0 / the largest digit / _1, with either prefix case"
-		b["exponent_ints"] = "17 mantissas (incl. leading zeros: 010, 0_10, 09, 0012, 0100, 0, 00, 08) x 11 exponents x e/E"
+		b["exponent_ints"] = "17 mantissas (incl. leading zeros: 010, 0_10, 09, 0012, 0100, 0, 00, 08) x 13 exponents (incl. 1001 and -1001) x e/E"
 		b["floats"] = "14 spellings incl. subnormal, max, overflow, double-rounding-sensitive decimals"
 		b["strings"] = "17 bodies: documented escapes, multi-byte text, undefined escapes"
+		b["names_in_context"] = "36 names that begin with a reserved word (if else return raise yield defer x 6 tails) in 8 contexts, among them the first token of a line after a line break, a comment line, indentation, inside a function body, as an object key and after an if-expression; real lexer and parser; the AST must equal the one of a neutral name"
 		b["strings_in_context"] = "13 bodies (incl. ones ending in an escaped backslash or an escaped quote) x 7 contexts in which further tokens follow on the same line (another string, a symbol, brackets, a call, an object literal), through the real lexer and parser"
 		if tier == "thorough" {
 			b["names"] = "all names of length <= 12"
@@ -553,7 +558,7 @@ func boundsFor(id, tier string, jobs []*Job) map[string]interface{} {
 		b["captured_values"] = "13 chain programs (list, strict-list, reduce and thoughtful reduce chains in literal and variable-call form over arrays, objects, maps and an iterator) in which each step keeps the value it received - in the result or in a closure - and the kept values are read back at the end; payloads any int in (1, 100)"
 		b["two_steps"] = "first any Arr property on the literal array with argument [7] / 2 / function; then one of 8 array-building properties (+ * append prepend zip chain map rev) on the same receiver or on the first result; payloads concrete (quick) and symbolic ints in (1, 100) (thorough)"
 	case "C03":
-		b["binding"] = "0..3 positional and 0..2 keyword parameters (all 12 signatures) x 0..4 positional arguments (tail optionally as *[...]) x each of k1, k2 and one keyword the function does not declare (named zz, p1 like the first positional parameter, or g like the outer variable the body reads: solver choice) absent / before the positionals / after them / through **{...} (solver choices)"
+		b["binding"] = "0..3 positional and 0..2 keyword parameters (all 12 signatures) x 0..4 positional arguments (tail optionally as *[...]) x each of k1, _k2 (a private name) and one keyword the function does not declare (named zz, p1 like the first positional parameter, or g like the outer variable the body reads: solver choice) absent / before the positionals / after them / through **{...} (solver choices)"
 		b["scoping"] = "21 scenarios (incl. calls with 11 and 12 arguments reading every \\N; keyword defaults of a literal evaluated twice in different scopes; an undeclared keyword named like a parameter / outer variable; nested * and ** unpacking of the same array / object in one call; closure sees later reassignment, never the caller's scope, assignment and compound assignment stay local, sibling isolation, recursion frames, shadowing, function-making functions, receiver first, receiver-less chain, fresh frame per call, closures made in a chain, nested closures, method scope) with inputs a, b any int in (-10^6, 10^6)"
 	case "C04":
 		if tier == "thorough" {
